@@ -34,7 +34,8 @@ def setup():
 
 def build(gs, sy, dim=1, variant="ordinary", seed=5, mean=None, trend=None):
     UFModel = kstub.uf_model_class()
-    model = UFModel(dim=dim, var=sy["var"], len_scale=sy["len"], nugget=sy.get("nug", 0.0))
+    kw = {"anis": sy["anis"]} if dim > 1 else {}
+    model = UFModel(dim=dim, var=sy["var"], len_scale=sy["len"], nugget=sy.get("nug", 0.0), **kw)
     cp = [list(r) for r in sy["cpos"]]
     cv = list(sy["cval"])
     if variant == "simple":
@@ -60,6 +61,8 @@ def symbols(dim=1, ncond=2, ntar=2):
         "mean2": real("mean2"),
         "trend2": real("trend2"),
         "var2": real("var2"),
+        "anis": real("anis"),
+        "anis2": real("anis2"),
     }
 
 
@@ -126,13 +129,13 @@ def job_formula(variant, tier):
 OPS = ["call_same", "call_newseed", "call_newpos", "cond_values", "cond_positions", "model_refresh", "mean", "trend"]
 
 
-def job_history(variant, seq, tier):
+def job_history(variant, seq, tier, dim=1):
     gs, kb = setup()
     T = core.tier_timeout(tier)
-    sy = symbols()
+    sy = symbols(dim=dim)
     wv = c05.wvars(sy)
-    rb = ("history", lambda v: {"variant": variant, "seq": list(seq), "values": v})
-    hid = f"C07/history/{variant}/" + ">".join(seq)
+    rb = ("history", lambda v: {"variant": variant, "seq": list(seq), "dim": dim, "values": v})
+    hid = f"C07/history/{variant}/" + (f"d{dim}/" if dim > 1 else "") + ">".join(seq)
     out = []
 
     def changed(new, old):
@@ -141,10 +144,10 @@ def job_history(variant, seq, tier):
     def run():
         kstub.reset()
         rngstub.reset()
-        for s in (sy["var"], sy["len"], sy["var2"]):
+        for s in (sy["var"], sy["len"], sy["var2"], sy["anis"], sy["anis2"]):
             sym.assume(s > 0)
-        st = dict(cpos=sy["cpos"], cval=sy["cval"], var=sy["var"], mean=(sy["mean"] if variant == "simple" else None), trend=None, pos=sy["tpos"], seed=5)
-        csrf, k, model = build(gs, sy, variant=variant)
+        st = dict(cpos=sy["cpos"], cval=sy["cval"], var=sy["var"], anis=sy["anis"], mean=(sy["mean"] if variant == "simple" else None), trend=None, pos=sy["tpos"], seed=5)
+        csrf, k, model = build(gs, sy, dim=dim, variant=variant)
         pos = [list(r) for r in st["pos"]]
         csrf(pos, seed=9)
         st["seed"] = 9
@@ -174,6 +177,11 @@ def job_history(variant, seq, tier):
                 csrf.model.var = sy["var2"]
                 k.set_condition()  # documented refresh after an in-place model change
                 st["var"] = sy["var2"]
+            elif op == "anis_refresh":
+                changed(sy["anis2"], csrf.model.anis[0])
+                csrf.model.anis = sy["anis2"]
+                k.set_condition()  # documented refresh after an in-place model change (same positions, new geometry)
+                st["anis"] = sy["anis2"]
             elif op == "mean" and variant == "simple":
                 changed(sy["mean2"], st["mean"])
                 csrf.mean = sy["mean2"]
@@ -183,10 +191,13 @@ def job_history(variant, seq, tier):
                 st["trend"] = sy["trend2"]
         final = csrf()
         # fresh objects with the final settings
-        sy2 = dict(sy, cpos=st["cpos"], cval=st["cval"], var=st["var"])
-        fresh_csrf, k2, m2 = build(gs, sy2, variant=variant, seed=5, mean=st["mean"], trend=st["trend"])
+        sy2 = dict(sy, cpos=st["cpos"], cval=st["cval"], var=st["var"], anis=st["anis"])
+        fresh_csrf, k2, m2 = build(gs, sy2, dim=dim, variant=variant, seed=5, mean=st["mean"], trend=st["trend"])
+        n_inv_before = len(kstub.INV_LOG)
         fresh = fresh_csrf([list(r) for r in st["pos"]], seed=st["seed"])
-        return c11.flat(final), c11.flat(fresh), list(kstub.INV_LOG)
+        # intermediate state (cheap, localising obligations): isometrised conditioning positions and the kriging matrix in use
+        state = (rnp.array(k._krige_pos, dtype=object).copy(), rnp.array(k2._krige_pos, dtype=object).copy(), kstub.INV_LOG[n_inv_before - 1][0] if n_inv_before else None, kstub.INV_LOG[-1][0] if len(kstub.INV_LOG) > n_inv_before else None)
+        return c11.flat(final), c11.flat(fresh), list(kstub.INV_LOG), state
 
     paths = explore(run, max_paths=64)
     n_ok = 0
@@ -196,8 +207,17 @@ def job_history(variant, seq, tier):
             out.append(rec(base, "error", detail=f"{p.exc!r} {p.tb}"))
             continue
         n_ok += 1
-        final, fresh, log = p.out
+        final, fresh, log, state = p.out
         C = p.conds + list(rngstub.FACTS) + unify_inverses(log)
+        kp1, kp2, K1, K2 = state
+        if kp1.shape != kp2.shape:
+            out.append(rec(base + "/shape of the isometrised conditioning positions", "sat", witness={}, replay={"kind": "history", "inputs": rb[1]({})}))
+        else:
+            for idx in rnp.ndindex(kp1.shape):
+                out.append(prove(f"{base}/isometrised conditioning position{list(idx)} == freshly built object", p.conds, core.eq(kp1[idx], kp2[idx]), T, witness_vars=wv, replay=rb, pairwise=False))
+        if K1 is not None and K2 is not None and K1.shape == K2.shape:
+            for idx in rnp.ndindex(K1.shape):
+                out.append(prove(f"{base}/kriging matrix{list(idx)} in use == freshly built object", p.conds, core.eq(K1[idx], K2[idx]), T, witness_vars=wv, replay=rb, pairwise=False))
         for i, (a, b) in enumerate(zip(final, fresh)):
             out.append(prove(f"{base}/field[{i}] == freshly built Krige+CondSRF with the final settings", C, core.eq(a, b), T, witness_vars=wv, replay=rb, pairwise=False))
     if not n_ok:
@@ -216,6 +236,9 @@ def jobs(tier, seed):
             seqs += [s_ for s_ in itertools.product(core_ops, repeat=3) if all(s_.count(o) <= 1 for o in once)]
         for s in seqs:
             js.append(Job(f"hist-{variant}-{'>'.join(s)}", job_history, variant, s, tier))
+    # 2-D anisotropic model: the refresh after an in-place change of the geometry
+    for s in (("anis_refresh",), ("anis_refresh", "call_same"), ("call_newseed", "anis_refresh"), ("cond_values", "anis_refresh"), ("anis_refresh", "cond_values")):
+        js.append(Job(f"hist-ordinary-d2-{'>'.join(s)}", job_history, "ordinary", s, tier, 2))
     return js
 
 
@@ -283,10 +306,55 @@ def replay_formula(inputs):
     return (not bad), f"{variant} failing={bad}"
 
 
+def _replay_history_2d(inputs):
+    import numpy as np
+    import gstools as gs
+
+    v = inputs.get("values") or {}
+    seq = list(inputs["seq"])
+    cpos = np.array([[_val(v, "c0_0", 0.3), _val(v, "c0_1", 1.9)], [_val(v, "c1_0", 0.2), _val(v, "c1_1", 1.1)]])
+    if np.allclose(cpos[:, 0], cpos[:, 1]):
+        cpos = np.array([[0.3, 1.9], [0.2, 1.1]])
+    cval, cval2 = np.array([_val(v, "z0", 0.7), _val(v, "z1", -0.4)]), np.array([_val(v, "y0", 1.9), _val(v, "y1", 0.8)])
+    tpos = np.array([[_val(v, "t0_0", 0.9), _val(v, "t0_1", 2.6)], [_val(v, "t1_0", 0.5), _val(v, "t1_1", -0.7)]])
+    a1, a2 = abs(_val(v, "anis", 0.5)) or 0.5, abs(_val(v, "anis2", 2.0)) or 2.0
+    if np.isclose(a1, a2):
+        a2 = a1 * 2.5
+    var, ln = abs(_val(v, "var", 1.4)) or 1.4, abs(_val(v, "len", 1.6)) or 1.6
+
+    def mk(anis, cv):
+        model = gs.Exponential(dim=2, var=var, len_scale=ln, anis=anis)
+        k = gs.krige.Ordinary(model, cpos, cv)
+        return gs.CondSRF(k, mode_no=30, seed=5), k
+
+    st = dict(anis=a1, cval=cval, seed=9)
+    csrf, k = mk(a1, cval)
+    csrf(tpos, seed=9)
+    for op in seq:
+        if op == "call_same":
+            csrf()
+        elif op == "call_newseed":
+            csrf(seed=11)
+            st["seed"] = 11
+        elif op == "cond_values":
+            k.set_condition(cond_val=cval2)
+            st["cval"] = cval2
+        elif op == "anis_refresh":
+            csrf.model.anis = a2
+            k.set_condition()
+            st["anis"] = a2
+    final = csrf()
+    fresh = mk(st["anis"], st["cval"])[0](tpos, seed=st["seed"])
+    ok = np.allclose(final, fresh, rtol=1e-7, atol=1e-9)
+    return bool(ok), f"2-D ordinary seq={seq} anis {a1}->{a2}: after history={np.asarray(final).tolist()} fresh={np.asarray(fresh).tolist()}"
+
+
 def replay_history(inputs):
     import numpy as np
     import gstools as gs
 
+    if int(inputs.get("dim", 1)) == 2:
+        return _replay_history_2d(inputs)
     c = _conc(inputs.get("values") or {})
     variant, seq = inputs["variant"], list(inputs["seq"])
     st = dict(cpos=c["cpos"], cval=c["cval"], var=c["var"], mean=(c["mean"] if variant == "simple" else None), trend=None, pos=c["tpos"], seed=9)
